@@ -537,6 +537,7 @@ class Run:
         self.ncommit = 0
         obs['nstmts'] = self.__dict__.pop('nstmts', [])
         obs['crashed'] = bool(self.__dict__.pop('just_crashed', False))
+        obs['dead_db'] = self.__dict__.pop('dead_db', None)
         self.prepped = []
         self.prepfail = []
         self.adds, self.removed, self.stall_at = [], [], None
@@ -863,7 +864,8 @@ class Run:
 
                 def connect():
                     if dao.conn is None:
-                        dao.conn = _DyingConn(sqlite3.connect(dao.db_file_name, timeout=dao.CONN_TIMEOUT), j_eff)
+                        # the connection the DAO itself would open (its own connect(): isolation level, timeout, ...)
+                        dao.conn = _DyingConn(type(dao).connect(dao), j_eff)
                     elif not isinstance(dao.conn, _DyingConn):
                         # a connection left open by an earlier SELECT (history look-ups): the same connection dies
                         dao.conn = _DyingConn(dao.conn, j_eff)
@@ -907,6 +909,21 @@ class Run:
         with suppress(OSError):
             os.remove(get_contact_file_path(self.id))
         schd.workflow_db_mgr.on_workflow_shutdown()
+        # observation key 'dead_db': the private database file as the dead process left it (read before the new
+        # scheduler starts): the task_pool rows and the task_states / task_outputs rows (as keys 'db' / 'ts')
+        try:
+            import sqlite3
+            con = sqlite3.connect(schd.workflow_db_mgr.pri_path, timeout=5)
+            try:
+                pool_rows = sorted(
+                    [int(c), n, json.loads(f), st, bool(h)]
+                    for c, n, f, st, h in con.execute(
+                        'SELECT cycle, name, flow_nums, status, is_held FROM task_pool'))
+            finally:
+                con.close()
+            self.dead_db = {'pool': pool_rows, 'ts': self._observe_ts()}
+        except Exception as exc:
+            self.dead_db = {'error': str(exc)[:200]}
         try:
             async with asyncio.timeout(10):
                 await schd.server.stop('verif crash')
